@@ -9,7 +9,7 @@ use mpd_client::responses::{Song, SongInQueue};
 use mpd_client::tag::Tag;
 
 use super::c16::tag_name;
-use super::typed::{self, canonical_tag, close, frame_of, gen_ms, gen_name, kv, ms_str, TIMESTAMPS};
+use super::typed::{self, canonical_tag, close, frame_of, gen_ms, gen_name, kv, ms_spell, ms_str, TIMESTAMPS};
 use crate::util::acc::Acc;
 use crate::util::json::J;
 use crate::util::panics;
@@ -125,14 +125,17 @@ pub fn song_lines(s: &ASong, r: &mut Rng) -> Vec<(String, String)> {
         attrs.push(kv("Prio", p));
     }
     if let Some((a, b)) = s.range {
-        attrs.push(kv("Range", format!("{}-{}", ms_str(a), b.map(ms_str).unwrap_or_default())));
+        // a quarter of the values in another decimal spelling of the same number (`2.5`, `2`, `2.500000`)
+        let mut sp = |v: u64| if r.chance(1, 4) { ms_spell(v, r.next_u64()) } else { ms_str(v) };
+        let a_s = sp(a);
+        attrs.push(kv("Range", format!("{}-{}", a_s, b.map(|b| sp(b)).unwrap_or_default())));
     }
     let mut timing: Vec<(String, String)> = Vec::new();
     if let Some(t) = s.time_s {
         timing.push(kv("Time", t));
     }
     if let Some(d) = s.duration_ms {
-        timing.push(kv("duration", ms_str(d)));
+        timing.push(kv("duration", if r.chance(1, 4) { ms_spell(d, r.next_u64()) } else { ms_str(d) }));
     }
     if !s.time_first {
         timing.reverse();
@@ -478,7 +481,7 @@ impl Property for C14 {
             assumptions: vec![
                 "scalar attributes are not repeated within one song and URLs are non-empty (neither occurs in MPD output; the empty URL is the builder's own 'no song' sentinel)".into(),
                 "tag names compare by canonical protocol name (known names case-insensitively, as the crate documents)".into(),
-                "durations are sent with millisecond precision and compared within 1 microsecond".into(),
+                "durations are sent with millisecond precision, three quarters as MPD prints them (`S.mmm`), one quarter in another decimal spelling of the same number (trailing zeros trimmed, two or six decimals, bare integer), and compared within 1 microsecond".into(),
             ],
             exhaustive: None,
             floors: vec![
